@@ -42,12 +42,23 @@ def case(g, tier, ci):
             {"op": "sq.forge", "id": "s", "delays": True, "filters": False, "time": False, "_off": True},
             {"op": "sq.forge", "id": "s", "delays": False, "filters": True, "time": r.random() < 0.3}, {"op": "sq.desc", "id": "s"}]
     if not info["subs"]:
+        if ci % 4 == 2:
+            # an output call that is refused (too many repetitions for the AWG70000A), then the setting is repaired and a
+            # compensation (re)declared: the next packages are made from the sequence as it is now
+            ops += [{"op": "sq.setSeq", "id": "s", "pos": 1, "field": "nrep", "v": 20000},
+                    {"op": "sq.seqx", "id": "s", "flags": True}, {"op": "sq.setSeq", "id": "s", "pos": 1, "field": "nrep", "v": 2},
+                    {"op": "sq.setFilter", "id": "s", "ch": ch0, "kind": r.choice(["HP", "LP"]), "order": 1, "orderIsInt": True,
+                     "f_cut": enc(SR * r.choice([0.05, 0.2])), "tau": None},
+                    {"op": "sq.forge", "id": "s", "delays": True, "filters": True, "time": False}]
         ops += [{"op": "sq.awg", "id": "s"}, {"op": "sq.seqx", "id": "s"}]
+        if ci % 4 == 2:
+            ops.append({"op": "sq.seqx", "id": "s", "flags": True})
     return ops
 
 
 def post_check(ops, ri, rm):
-    filtered = {str(o["ch"]) for o, r in zip(ops, ri) if o["op"] == "sq.setFilter" and "ok" in r}
+    on_at = next((i for i, o in enumerate(ops) if o.get("_on")), len(ops))
+    filtered = {str(o["ch"]) for o, r in list(zip(ops, ri))[:on_at] if o["op"] == "sq.setFilter" and "ok" in r}
     on = next((r for o, r in zip(ops, ri) if o.get("_on")), None)
     off = next((r for o, r in zip(ops, ri) if o.get("_off")), None)
     if on is None or off is None or "err" in on or "err" in off:
@@ -67,6 +78,8 @@ def post_check(ops, ri, rm):
     spec = {}
     seq_sr = None
     for o, r in zip(ops, ri):
+        if o.get("_on"):
+            break           # (what is declared after the observed forge does not count)
         if o["op"] == "sq.setFilter" and o.get("id") == "s" and "ok" in r:
             fc = float(dec_val(o["f_cut"])) if o.get("f_cut") is not None else 1 / float(dec_val(o["tau"]))
             spec[str(o["ch"])] = (o["kind"], int(o["order"]), fc)
